@@ -5,7 +5,7 @@ state in St.flags (tuples whose first element is the flag name) so that it is
 part of the explored abstract state.
 """
 from interp import DEAD, LIVE, ALL, Ev, HANDLE_ADTS, counter_read
-from expr import show, mentions, box_part, table_of, is_const, mk_field, mk_deref
+from expr import is_pop_call, show, mentions, box_part, table_of, is_const, mk_field, mk_deref
 
 
 def sub(e, r):
@@ -41,7 +41,7 @@ def handle_boxes(fn):
 
 def is_elem_box(box):
     """Box named by an element obtained from an iterator / container (not a parameter)."""
-    return mentions(box, lambda x: x[0] == "call" and (x[2] == "core::iter::Iterator::next" or x[2].endswith("::pop")))
+    return mentions(box, lambda x: x[0] == "call" and (x[2] == "core::iter::Iterator::next" or is_pop_call(x[2])))
 
 
 def touches(ev):
